@@ -103,6 +103,16 @@ def h_step(ctx, cap, prefetch, video):
             if gone and k not in frame_tags:
                 replaced = p.sequence_number == seq
                 ctx.check(sx.Or(replaced, pli), "pli-when-discarding")
+        # overflow eviction ends at a frame boundary: what stays behind the last discarded packet
+        # does not begin with the rest of that packet's frame (smart_remove's contract; "only whole
+        # frames")
+        evicted = [k for k, p in pre_held.items() if all(h is not p for h in held_after) and k not in frame_tags]
+        if evicted:
+            last = max(evicted)
+            rest = [k for k in pre_held if k > last]
+            if rest:
+                a, b = pre_held[last], pre_held[min(rest)]
+                ctx.check(sx.Or(late_reset, a.sequence_number == seq, a.timestamp != b.timestamp), "eviction-ends-at-a-frame-boundary")
     ctx.observe("pli", pli)
     ctx.observe("frame", None if frame is None else (list(frame.data), frame.timestamp))
     ctx.observe("origin", jb._origin)
